@@ -165,3 +165,31 @@ func VerifC04URL() {
 	symCover("unchanged")
 	symAssert(refSchemeKind(s) != c04Other, "unchanged implies relative reference or allow-listed scheme")
 }
+
+// VerifC04URLLong: the same claim for long inputs: H free symbolic bytes, then PAD symbolic bytes
+// of the kind browsers remove before they read the scheme (C0 controls and space in front, tab/
+// LF/CR anywhere), then a free symbolic tail of up to N bytes - the scheme may start and end
+// arbitrarily far into the string.
+func VerifC04URLLong() {
+	pad := make([]byte, symParam("PAD"))
+	for i := range pad {
+		pad[i] = symByte("p" + string(rune('A'+i/26)) + string(rune('a'+i%26)))
+		symAssume(pad[i] <= 0x20)
+	}
+	s := symString("h", symParam("H")) + string(pad) + symString("t", symParam("N"))
+	out := URL(s)
+	symCover("called")
+	if string(out) != s {
+		symCover("rejected")
+		symAssert(out == FailedSanitizationURL, "rejected input maps to the failure URL")
+		return
+	}
+	symCover("unchanged")
+	symAssert(!symDFAAccepts(c04Trans, c04NC, c04Class[:], c04Start, s, c04AcceptOther()), "unchanged implies relative reference or allow-listed scheme")
+}
+
+func c04AcceptOther() []uint8 {
+	acc := make([]uint8, c04States)
+	acc[c04Other] = 1
+	return acc
+}
